@@ -72,6 +72,27 @@ theorem idFastPath_no_oob (b : Bytes) (n : Nat) :
     listLengthFast b ≠ .oob ∧ decodeIdFast b n ≠ .oob :=
   ⟨listLengthFast_no_oob b, decodeIdFast_no_oob b n⟩
 
+/-- `StreamDecoder.RawBytes(offset, length)`: for all int64 arguments the final slice
+    expression is in range (no panic), and an accepted request returns exactly the
+    requested range — the wrap-around of `offset + length` is rejected, not sliced. -/
+theorem rawBytes_safe (len offset length : Int) :
+    rawBytes len offset length ≠ .oob ∧
+    (isInt64 offset → isInt64 length → ∀ lo hi, rawBytes len offset length = .val (some (lo, hi)) →
+      lo = offset ∧ hi = offset + length ∧ 0 ≤ lo ∧ hi ≤ len) :=
+  ⟨rawBytes_no_oob len offset length, fun ho hl lo hi h => rawBytes_exact len offset length lo hi ho hl h⟩
+
+/-- the diagnostic parser's header readers (`parseCollectionHeader`, `parseTagHeader`) -/
+theorem diagHeaders_no_oob (b : Bytes) (off : Nat) :
+    collectionHeaderAt b off ≠ .oob ∧ tagHeaderAt b off ≠ .oob :=
+  ⟨collectionHeaderAt_no_oob b off, tagHeaderAt_no_oob b off⟩
+
+/-- without the `end < offset` guard the wrapped sum would be sliced: the guard is needed -/
+example : wrapS64 (9223372036854775807 + 1) = -9223372036854775808 := by decide
+example : rawBytes 10 9223372036854775807 1 = .val none := by decide
+example : rawBytes 10 2 3 = .val (some (2, 5)) := by decide
+example : collectionHeaderAt [0x99, 0x01] 0 = .val none := by decide
+example : tagHeaderAt [0xd9, 0x01, 0x02, 0x00] 0 = .val (some (258, 3)) := by decide
+
 /-- The bounds checks are needed: without the `len ≥ 3` guard the read does go
     out of range (the `oob` outcome is reachable, the theorems are not vacuous). -/
 example : rdN [0x99, 0x01] 1 2 = .oob := by decide
